@@ -39,11 +39,18 @@
 (*   "OU" the same; the omitted output script is one that does not parse   *)
 (*        (BIP158 filters contain those; only OP_RETURN outputs are left   *)
 (*        out)                                                             *)
+(*   "OE" the same; the filter is EMPTY (N = 0, wire data 00): it omits    *)
+(*        every script; the advertised hash IS that of the empty filter,   *)
+(*        so only the block exposes it                                     *)
 (*   "NH" same, but the filter it serves does NOT HASH to the advertised   *)
 (*        value (it serves the true filter)                                *)
 (*   "NS" same, but the filter for k is NOT SERVED                         *)
 (*   "EX" same, but the filter has an extra element: it hashes to the      *)
 (*        advertised value and contains every script (not provable)        *)
+(*   "OI" same, but the filter omits the script of an output that an       *)
+(*        INPUT of the block spends (all output scripts are there).  The   *)
+(*        statement lists "omits an output script" only, and the block     *)
+(*        alone does not prove what an input spends: not provable          *)
 (*   "HC" true checkpoints, false cfheaders at k, filter omits a script    *)
 (*   "FO" headers and checkpoints true; the filter for k omits a script    *)
 (*   "SH" truthful, but its checkpoint list is SHORTER: only the           *)
@@ -65,9 +72,10 @@ OrBit(m, p) == IF Bit(m, p) THEN m ELSE m + Pow2(p - 1)
 BlockOf(x) == x \div LS
 MaskOf(x)  == x % LS
 
-KindCF   == {"OM", "OU", "NH", "NS", "EX", "HC"}            \* false filter hash at k in cfheaders
-KindCP   == {"CP", "CX", "PV", "OM", "OU", "NH", "NS", "EX"}  \* false checkpoints from k on
-Provable == {"OM", "OU", "NH", "NS", "HC"}   \* the statement's list: omits a script / does not hash / not served
+KindCF   == {"OM", "OU", "OE", "NH", "NS", "EX", "OI", "HC"}            \* false filter hash at k in cfheaders
+KindCP   == {"CP", "CX", "PV", "OM", "OU", "OE", "NH", "NS", "EX", "OI"}  \* false checkpoints from k on
+OmitsOut == {"OM", "OU", "OE", "HC", "FO"}   \* the filter served for height k omits an output script of the block
+Provable == {"OM", "OU", "OE", "NH", "NS", "HC"}   \* the statement's list: omits a script / does not hash / not served
 
 InSeq(x, s) == \E i \in 1..Len(s) : s[i] = x
 IsPrefix(s, t) == Len(s) <= Len(t) /\ \A i \in 1..Len(s) : s[i] = t[i]
@@ -86,7 +94,8 @@ HonestPresent(o) == \E q \in PeersOf(o) : Kd(o, q) = "H" /\ o.ban[q] = 0
 \*   ech, nev, ebad  (CFRace slice, C19) the chain a subscriber holds after the
 \*           first nev delivered block events, and whether an event did not fit
 \*   cpB     the block chain when those lists arrived
-AbsInit == [cpresp |-> {}, cpsrv |-> {}, hsrv |-> {}, cpB |-> <<>>, ech |-> <<>>, nev |-> 0, ebad |-> 0]
+AbsInit == [cpresp |-> {}, cpsrv |-> {}, hsrv |-> {}, cpB |-> <<>>, ech |-> <<>>, nev |-> 0, ebad |-> 0,
+            frs |-> {}, fi |-> -1, fB |-> <<>>]
 
 \* One delivered event applied to the chain the subscriber holds (block ids =
 \* heights in that slice).  Connected(b) = b+1 must extend the chain by one;
@@ -130,6 +139,15 @@ AbsNext(a, act, o2) ==
     [] act.op \in {"RCfh", "UCfh"} ->
          [a EXCEPT !.hsrv = {p \in PeersOf(o2) : InSeq(p, act.rs)
                                 /\ FalseCfh(o2, p, act.lo, act.hi)}]
+    \* the filters of a disputed height arrived and all hash to what their
+    \* senders advertised: the block is fetched next (who answered, which
+    \* height, on which block chain)
+    [] act.op \in {"RFlt", "UFlt"} ->
+         IF act.res = "q_blk"
+         THEN [a EXCEPT !.frs = {p \in PeersOf(o2) : InSeq(p, act.rs)}, !.fi = act.n, !.fB = o2.B]
+         ELSE [a EXCEPT !.frs = {}, !.fi = -1, !.fB = <<>>]
+    [] act.op \in {"RBlk", "UBlk", "Begin"} ->
+         [a EXCEPT !.frs = {}, !.fi = -1, !.fB = <<>>]
     [] OTHER -> a
 
 ----------------------------------------------------------------------------
@@ -221,6 +239,18 @@ Viol(a, o, act, a2, o2) ==
               /\ HonestPresent(o) /\ act.res # "panic"
               /\ o2.ban[act.p] = 0
         THEN {"LiarsBanned"} ELSE {})
+  \* ... and at the latest when the proof is on the table: the block of the
+  \* disputed height has been delivered (act.n = 1), an unbanned honest peer
+  \* and the liar both answered the getcfilters broadcast for it, the liar's
+  \* filter omits an output script of that block ("provably inconsistent with
+  \* the block"), the block chain has not changed since the filters arrived.
+  \* Whether the round then ends well is another matter.
+  \cup (IF act.op \in {"RBlk", "UBlk"} /\ act.n = 1 /\ act.res # "panic"
+           /\ a.fi >= 0 /\ a.fB = o.B /\ o2.B = o.B
+           /\ \E q \in a.frs : Kd(o2, q) = "H" /\ o.ban[q] = 0
+           /\ \E p \in a.frs : Kd(o2, p) \in OmitsOut /\ Kh(o2, p) = a.fi
+                                 /\ o.ban[p] = 0 /\ o2.ban[p] = 0
+        THEN {"BlockProvenLiarBanned"} ELSE {})
 
 EndViol(a, o) == {}
 
